@@ -604,6 +604,9 @@ func genCase(r *Rng) Input {
 			in.Ops = append(in.Ops, Op{K: "undel", V: r.Intn(nvals), Amt: amt})
 			if amt == "all" && r.Chance(2, 3) { // let the validator unbond and be removed
 				in.Ops = append(in.Ops, Op{K: "send"}, Op{K: "send"})
+				if r.Chance(1, 2) { // the window ends while the removed validator still has its counter
+					in.Ops = append(in.Ops, Op{K: "end", Jump: "window", Votes: genVotes(r, &in, nvals, sloppy, bandPermille)})
+				}
 			}
 		case 5:
 			in.Ops = append(in.Ops, Op{K: "jail", V: r.Intn(nvals)})
